@@ -289,6 +289,9 @@ func runCaseMode(run *vk.Run, dir string, c *pcase, w *world.World, onlyCrash bo
 		err     error
 	}
 	done := make(chan outcome, 1)
+	// every third recipient conversation goes through Wrap instead of WrapWithLabels: what the plugin is sent and what
+	// it may answer are the same, only the labels cannot be handed back
+	viaWrap := c.Mode == "recipient" && !fromIdentity && (len(c.Script)+len(strings.Join(c.Script, "")))%3 == 0
 	hdrStanzas := []*age.Stanza{{Type: "vtype", Args: []string{"a1"}, Body: []byte("body-1")}, {Type: "X25519", Args: []string{"TEiF0ypqr+bpvcqXNyCVJpL7OuwPdVwPL7KQEbFDOCc"}, Body: bytes.Repeat([]byte{7}, 32)}}
 	var encoding string
 	go func() {
@@ -315,7 +318,12 @@ func runCaseMode(run *vk.Run, dir string, c *pcase, w *world.World, onlyCrash bo
 				o.err = err
 				return
 			}
-			o.stanzas, o.labels, o.err = r.WrapWithLabels(fileKey)
+			if viaWrap {
+				// through the plain age.Recipient method (a caller's wrapper type, code written before labels existed)
+				o.stanzas, o.err = r.Wrap(fileKey)
+			} else {
+				o.stanzas, o.labels, o.err = r.WrapWithLabels(fileKey)
+			}
 		} else {
 			encoding = plugin.EncodeIdentity("vscript", []byte(id))
 			i, err := plugin.NewIdentity(encoding, ui)
@@ -405,7 +413,7 @@ func runCaseMode(run *vk.Run, dir string, c *pcase, w *world.World, onlyCrash bo
 				bad("%d stanzas returned, %d sent with index 0", len(o.stanzas), c.Stanzas)
 			}
 			want := map[string]string{"none": "", "labels0": "", "labels_ab": "a,b", "labels_ba": "b,a"}[c.Labels]
-			if strings.Join(o.labels, ",") != want {
+			if !viaWrap && strings.Join(o.labels, ",") != want {
 				bad("labels %v, want %q", o.labels, want)
 			}
 		} else if !bytes.Equal(o.key, fileKey) {
